@@ -4,6 +4,7 @@ import (
 	"bytes"
 	"encoding/hex"
 	"encoding/json"
+	"errors"
 	"flag"
 	"fmt"
 	"net"
@@ -73,6 +74,13 @@ func (p *c19platform) Start(args ...string) error {
 	m := monitor.VerifLastMonitor()
 	for deadline := time.Now().Add(5 * time.Second); m.VerifConns() < len(conns) && time.Now().Before(deadline); {
 		time.Sleep(50 * time.Microsecond)
+	}
+	if m.VerifConns() < len(conns) {
+		// not this run's monitor behind the port (somebody else bound it first): try again on another port
+		for _, o := range conns {
+			o.Close()
+		}
+		return errors.New("c19: the monitor is not serving the connections (port taken)")
 	}
 	// every process writes what it measured and exits, one after the other: the monitor has read a connection to
 	// its end (Listen has removed it) before the next process writes, so the arrival order — which the running mean
@@ -217,7 +225,7 @@ func (e *c19env) runTest(tk []string, fail func(sig, msg string)) string {
 			return "bad-op"
 		}
 		stats, err = simul.RunTest(pf, rc)
-		if err == nil || !strings.Contains(err.Error(), "refused") {
+		if err == nil || !(strings.Contains(err.Error(), "refused") || strings.Contains(err.Error(), "port taken")) {
 			break
 		}
 	}
